@@ -90,3 +90,16 @@ func (r *VerifRPC) SetMapPixels(n int) {
 
 // MapLoaded tells whether the map server currently holds a map.
 func (r *VerifRPC) MapLoaded() bool { return r.SC.mapServer.Map != nil }
+
+// VerifBreakExperimentStateFile injects an I/O fault for the fault stream of the C06 check: it closes the
+// experiment-state file behind WritingState's back, so that the next write to it (the STOP label) fails.
+// Returns false when no such file is open.
+func (ds *AnySource) VerifBreakExperimentStateFile() bool {
+	ds.writingState.Lock()
+	defer ds.writingState.Unlock()
+	if ds.writingState.experimentStateFile == nil {
+		return false
+	}
+	ds.writingState.experimentStateFile.Close()
+	return true
+}
